@@ -1205,6 +1205,12 @@ func tableEmit(c *core.Ctx, gos []*xGo, err error) (nleaks, nunsync int) {
 			}
 		}
 	}
+	// package-level variables written below a goroutine of the four pools without synchronisation
+	for _, w := range globalWrites {
+		if w.Sync == "none" && !strings.HasPrefix(w.File, "cmd/") {
+			unsync = append(unsync, fmt.Sprintf("%s:%d %s: package-level %s (%s) written at %s:%d unsynchronised", w.File, w.GoLine, w.Fn, w.Var, w.How, w.At, w.Line))
+		}
+	}
 	for _, cl := range callers {
 		if !cl.Ranged {
 			leaks = append(leaks, fmt.Sprintf("cmd/comparetrees.go:%d the channel %s returned by tree.%s is not ranged over by its caller", cl.Line, cl.Var, cl.Fn))
@@ -1409,6 +1415,61 @@ func generate(c *core.Ctx, cfg *config) {
 		}
 		if len(reqs) > 60 {
 			flush()
+		}
+	}
+	// TBE with the moved-taxa statistics on bootstrap trees CLOSE to the reference (two to four taxa exchanged),
+	// references of 12-20 tips: the tallies shared by the workers under the mutex are non-zero (drawn after the
+	// collections above: their stream is unchanged)
+	ntal := c.Scale(6, 16)
+	if cfg.ncoll > 0 && cfg.ncoll <= 5 {
+		ntal = 1
+	}
+	for i := 0; i < ntal; i++ {
+		o := treeOpts(g, "tbe", false)
+		o.MinTips, o.MaxTips = 14, 24
+		refN, _ := g.Tree(o)
+		core.NumberEdges(refN)
+		nb := 2 + g.Intn(3)
+		var items []string
+		for j := 0; j < nb; j++ {
+			x := refN.Clone()
+			lv := leaves(x)
+			// one taxon moved elsewhere (a leaf taken from a node of degree >= 3 and hung below another inner
+			// node: transfer distance 1 for the branches in between), else two taxa exchanged
+			type slot struct {
+				p *core.N
+				i int
+			}
+			var slots []slot
+			var inner []*core.N
+			var walk func(n *core.N)
+			walk = func(n *core.N) {
+				if len(n.Kids) > 0 {
+					inner = append(inner, n)
+				}
+				for i, k := range n.Kids {
+					if len(k.Kids) == 0 && len(n.Kids) >= 3 {
+						slots = append(slots, slot{n, i})
+					}
+					walk(k)
+				}
+			}
+			walk(x)
+			if len(slots) > 0 && g.Chance(0.8) {
+				sl := slots[g.Intn(len(slots))]
+				leaf := sl.p.Kids[sl.i]
+				sl.p.Kids = append(append([]*core.N{}, sl.p.Kids[:sl.i]...), sl.p.Kids[sl.i+1:]...)
+				q := inner[g.Intn(len(inner))]
+				q.Kids = append(q.Kids, leaf)
+			} else if len(lv) >= 2 {
+				a, b := g.Intn(len(lv)), g.Intn(len(lv))
+				lv[a].Name, lv[b].Name = lv[b].Name, lv[a].Name
+			}
+			core.NumberEdges(x)
+			items = append(items, x.Dump())
+		}
+		for _, th := range []int{1, 2, 4, 16} {
+			reqs = append(reqs, request{Kind: "tbe", Threads: th, Flags: "a", Ref: refN.Dump(), Items: items})
 		}
 	}
 	// histories of calls on one hash map (drawn last: the stream of the collections above is unchanged)
